@@ -1,4 +1,5 @@
 import ArgoVerif.Proofs.Rank
+import ArgoVerif.Gen.Consts
 import ArgoVerif.Proofs.XsCtx
 import ArgoVerif.Proofs.Replace
 import ArgoVerif.Proofs.RankConc4
@@ -1484,5 +1485,10 @@ theorem revive_without_reset_rejected :
   decide
 
 end Life
+
+
+/-! ## widths of the counters modelled as unbounded numbers (generated from the headers on every run) -/
+/-- the rank of an execution stream is 4 bytes wide in this tree: the unbounded model agrees with the C field below 2^31 -/
+example : ArgoVerif.Gen.Consts.bytesXstreamRank = 4 := by decide
 
 end ArgoVerif.Props.C17
